@@ -3,6 +3,7 @@ CONSTANTS
  Family = "mid"
  MaxMid = 13
  MaxTiny = 7
+ CarryTail = 2
  CarryLens = {}
 INIT Init
 NEXT Next
